@@ -1,5 +1,6 @@
 import AITB.Model.Proto
 import AITB.Model.Factored
+import Driver.C14b
 open AITB AITB.Factored
 
 namespace DrvC14
@@ -62,6 +63,25 @@ def pie : P String := do
   let v := v.failIf (implSeq != expect) s!"pie wrong_index_set {implSeq}"
   return v.render
 
+/-- insert `k` into an ascending key list (no duplicate) -/
+def insKey (k : Nat) : List Nat → List Nat
+  | [] => [k]
+  | a :: r => if k < a then k :: a :: r else if k = a then a :: r else a :: insKey k r
+
+/-- `piek sp keys fixed val missing | seq` : PartialIndexEnumerator(F, factors, fixedFactor, val, missing) -/
+def piek : P String := do
+  let sp ← P.nats; let keys ← P.nats; let fixed ← P.nat; let val ← P.nat; let missing ← P.bool; P.bar
+  let implSeq ← P.nats; P.eof
+  let keys' := insKey fixed keys
+  let dims := sel keys' sp
+  let pos := (keys'.takeWhile (· < fixed)).length
+  let mseq := pieAll (pieInitPK sp keys fixed val missing) (space dims + 2)
+  let expect := (List.range (space dims)).filter (fun id => (toFactors dims id).getD pos 0 == val)
+  let v : Verdict := { tag := "piek" }
+  let v := v.diffIf (mseq != implSeq) s!"PartialIndexEnumerator(keys) seq model={mseq} impl={implSeq}"
+  let v := v.failIf (implSeq != expect) s!"PartialIndexEnumerator(keys) wrong_index_set {implSeq}"
+  return v.render
+
 def pairs : P (List (Nat × Nat)) := do
   let k ← P.nats; let v ← P.nats
   if k.length != v.length then P.fail else pure (k.zip v)
@@ -89,7 +109,8 @@ def handle (toks : List String) : String :=
     | "enum" :: rest => P.run enum rest
     | "pie" :: rest => P.run pie rest
     | "merge" :: rest => P.run merge rest
-    | _ => none
+    | "piek" :: rest => P.run piek rest
+    | _ => DrvC14b.handle toks
   r.getD "bad-op"
 
 end DrvC14
